@@ -124,3 +124,52 @@ Proof.
   - apply str_eqb_eq in E. subst. rewrite str_eqb_refl. destruct (al_get k s); reflexivity.
   - destruct (al_get k' s); reflexivity.
 Qed.
+
+(* ---------------- fresh keys: insertion appends ---------------- *)
+
+Definition keys {V} (l : list (str * V)) : list str := map fst l.
+
+Section AL2.
+Context {V : Type}.
+Implicit Types (l : list (str * V)) (k : str).
+
+Lemma al_mem_app k l1 l2 : al_mem k (l1 ++ l2) = al_mem k l1 || al_mem k l2.
+Proof. unfold al_mem. rewrite al_get_app. destruct (al_get k l1); reflexivity. Qed.
+
+Lemma al_mem_false k l : al_mem k l = false <-> ~ In k (keys l).
+Proof.
+  unfold al_mem. induction l as [|[k0 v0] l IH]; cbn [al_get keys map fst In].
+  - split; [intros _ []|reflexivity].
+  - destruct (str_eqb k k0) eqn:E.
+    + apply str_eqb_eq in E. subst. split; [discriminate|]. intro H. exfalso. apply H. left. reflexivity.
+    + apply str_eqb_neq in E. rewrite IH. unfold keys. split.
+      * intros H [C|C]; [congruence | contradiction].
+      * intros H C. apply H. right. exact C.
+Qed.
+
+Lemma al_setdefault_fresh k v l : al_mem k l = false -> al_setdefault k v l = l ++ [(k, v)].
+Proof. intro H. unfold al_setdefault. rewrite H. reflexivity. Qed.
+
+Lemma al_setdefault_present k v l : al_mem k l = true -> al_setdefault k v l = l.
+Proof. intro H. unfold al_setdefault. rewrite H. reflexivity. Qed.
+
+Lemma al_mem_last k v l : al_mem k (l ++ [(k, v)]) = true.
+Proof. rewrite al_mem_app. unfold al_mem at 2. cbn [al_get]. rewrite str_eqb_refl. apply orb_true_r. Qed.
+
+Lemma al_update_last k f v l : al_mem k l = false ->
+  al_update k f (l ++ [(k, v)]) = l ++ [(k, f v)].
+Proof.
+  induction l as [|[k0 v0] l IH]; cbn [app al_update]; intro H.
+  - rewrite str_eqb_refl. reflexivity.
+  - unfold al_mem in H. cbn [al_get] in H. destruct (str_eqb k k0) eqn:E; [discriminate|].
+    rewrite IH; [reflexivity|]. unfold al_mem. exact H.
+Qed.
+
+Lemma al_set_fresh k v l : al_mem k l = false -> al_set k v l = l ++ [(k, v)].
+Proof.
+  induction l as [|[k0 v0] l IH]; cbn [app al_set]; intro H; [reflexivity|].
+  unfold al_mem in H. cbn [al_get] in H. destruct (str_eqb k k0) eqn:E; [discriminate|].
+  rewrite IH; [reflexivity|]. unfold al_mem. exact H.
+Qed.
+
+End AL2.
